@@ -96,6 +96,8 @@ def check(col: Collector, tier: str):
     ctl = any(isinstance(n, ast.Compare) and "0x20" in src(n).lower() or (isinstance(n, ast.Compare) and " 32" in src(n)) for n in ast.walk(esc.node))
     col.add("C18.R1", esc.short, "other-control-characters-escaped", ctl,
             "characters below 0x20 must be rendered as an escape sequence (a raw control character is not allowed inside a C++ string literal)", esc.loc)
+    from sa.props._tr import check_escaper_ranges
+    check_escaper_ranges(col, "C18.R1", repo)
     fmt = [j for j in ast.walk(esc.node) if isinstance(j, ast.JoinedStr) and any(isinstance(v, ast.FormattedValue) and v.format_spec is not None for v in j.values)]
     ok_oct = False
     for j in fmt:
@@ -194,6 +196,11 @@ def check(col: Collector, tier: str):
             fin = hf is not None and _rejects_nonfinite(hf.node)
             col.add("C18.R2", vc.short, "non-finite-float-rejected", bool(fin) and ok_arg,
                     f"float constants are rendered by {via}: inf/nan must raise before rendering (they print as identifiers)", vc.loc)
+        if hf is not None:
+            exact, why_exact = _renders_exactly(hf.node)
+            col.add("C18.R2", hf.short, f"{kind}-rendered-by-its-shortest-round-trip-text", exact,
+                    f"{kind} constants are rendered by {via}: the text must be str()/repr() of the constant itself (the shortest text that reads back as the "
+                    f"same number); {why_exact}", hf.loc)
         neg = hf is not None and _parenthesises_negatives(hf.node)
         col.add("C18.R6", vc.short, f"negative-{kind}-parenthesised", bool(neg) and ok_arg,
                 f"{kind} constants are rendered by {via}: a negative value must be parenthesised (x - -2 would print x--2)", vc.loc)
@@ -234,6 +241,14 @@ def check(col: Collector, tier: str):
     from sa.props._tr import import_obligations
     import_obligations(col, "C18.R9", "c03", lambda o: o.detail in ("entry=(name, variable typed by get_ttree_type(value))", "branch-binds-name-k-to-variable-k"),
                        "the column name given by the query must reach Branch() character for character; only the C++ variable name is sanitised")
+    # ------------------------------------------------------------ R10 the bytes on disk: strict UTF-8 (agreement with the escaper's pass-through)
+    from sa.props._tr import check_copy_template
+    col.floor("C18.R10", 1)
+    sub = Collector("C18")
+    check_copy_template(sub, "C18.R10", repo, details=("render", "truncate", "generated-files-written-as-strict-utf-8"))
+    for o in sub.obs:
+        if o.detail == "generated-files-written-as-strict-utf-8":
+            col.add("C18.R10", o.construct, o.detail, o.ok, o.msg, o.loc)
     # ------------------------------------------------------------ R7 no memoisation
     col.floor("C18.R7", 2)
     tr = repo.mod("common.ast_to_cpp_translator")
@@ -264,6 +279,32 @@ def _rejects_nonfinite(fn) -> bool:
                     rets = [x for x in walk_no_nested(fn) if isinstance(x, ast.Return)]
                     return all(x.lineno > r.lineno for x in rets)
     return False
+
+
+def _renders_exactly(fn):
+    """number helper: the parameter is never re-bound, and what is returned is str(p)/repr(p)/f"{p}" (no format spec, no rounding)"""
+    p0 = fn.args.args[0].arg
+    rebound = [src(n)[:60] for n in walk_no_nested(fn) if isinstance(n, (ast.Assign, ast.AugAssign, ast.AnnAssign))
+               and any(isinstance(t, ast.Name) and t.id == p0 for t in (n.targets if isinstance(n, ast.Assign) else [n.target]))]
+    if rebound:
+        return False, f"the parameter is re-bound before rendering: {rebound}"
+    rets = [r for r in walk_no_nested(fn) if isinstance(r, ast.Return) and r.value is not None]
+    if not rets:
+        return False, "no return"
+    for r in rets:
+        for n in ast.walk(r.value):
+            if isinstance(n, ast.FormattedValue):
+                if src(n.value) != p0 or n.format_spec is not None or n.conversion not in (-1, 114, 115):
+                    return False, f"formatted as {src(n)}"
+            if isinstance(n, ast.Call) and call_name(n) in ("format", "round", "float", "int", "Decimal", "trunc", "floor", "ceil") :
+                return False, f"value passes through {src(n)[:40]}"
+            if isinstance(n, ast.BinOp) and isinstance(n.op, ast.Mod) and isinstance(n.left, ast.Constant) and isinstance(n.left.value, str):
+                return False, f"printf-style formatting {src(n)[:40]}"
+            if isinstance(n, ast.Name) and n.id != p0 and not isinstance(n.ctx, ast.Store) and n.id not in ("str", "repr"):
+                d = [x for x in walk_no_nested(fn) if isinstance(x, ast.Assign) and any(isinstance(t, ast.Name) and t.id == n.id for t in x.targets)]
+                if d:
+                    return False, f"rendered from the local {n.id} = {src(d[0].value)[:40]}, not from the constant"
+    return True, "ok"
 
 
 def _parenthesises_negatives(fn) -> bool:
@@ -345,3 +386,16 @@ def check_substitution(col: Collector, repo: Repo, rule: str):
     uses = [c for c in walk_no_nested(pan.node) if isinstance(c, ast.Call) and call_name(c) in helper_names]
     col.add(rule, pan.short, "code-lines-and-field-initialisers-substituted", len(uses) >= 2 or (pan.name in helper_names),
             f"{len(uses)} uses of the substitution helper in process_ast_node (running code and fields expected)", pan.loc)
+    # the substituted line is emitted as it is: arbitrary_statement.emit may only append the missing ';'
+    from sa.props._tr import string_surgery
+    em = repo.method("arbitrary_statement", "emit")
+    cuts = [c for c in string_surgery(em.node) if not re_fullmatch_strip(c)]
+    adds = [c for c in walk_no_nested(em.node) if isinstance(c, ast.Call) and call_name(c) == "add_line"]
+    col.add(rule, em.short, "injected-line-emitted-whole", not cuts and len(adds) == 1,
+            f"the line carries the actual arguments already pasted in (string constants included): cutting or splitting it on C++ syntax such as `//` "
+            f"cannot tell code from the inside of a string literal (found {cuts}; add_line calls: {len(adds)})", em.loc)
+
+
+def re_fullmatch_strip(text: str) -> bool:
+    """whitespace trimming at the ends (x.strip() / x.rstrip() / x.lstrip() without argument) rewrites nothing inside the line"""
+    return _re.fullmatch(r".*\.(r|l)?strip\(\)", text) is not None
